@@ -1151,7 +1151,9 @@ pub fn add_dynamic(ch: &mut Chooser, root: &mut Obj, per_obj_num: u32, per_obj_d
         // property bindings on widgets and actions
         if matches!(k, Kind::Widget | Kind::Action) && !srcs.is_empty() {
             let tries = if ch.chance(per_obj_num, per_obj_den) { 1 + ch.below(3) } else { 0 };
-            let props: Vec<PropInfo> = simple_props(&class).into_iter().filter(|p| matches!(p.ty, Ty::Bool | Ty::Int | Ty::Double | Ty::Str)).collect();
+            // (a dynamic binding needs the getter too: gadget maps read-modify-write, and the translator
+            // insists on it for every dynamic binding)
+            let props: Vec<PropInfo> = simple_props(&class).into_iter().filter(|p| matches!(p.ty, Ty::Bool | Ty::Int | Ty::Double | Ty::Str) && p.read.is_some()).collect();
             for _ in 0..tries {
                 if props.is_empty() {
                     break;
